@@ -1,14 +1,16 @@
 pub mod common;
 pub mod c01;
+pub mod c03;
 pub mod c04;
 
 use crate::engine::Property;
 
-pub const ALL_IDS: &[&str] = &["C01", "C04"];
+pub const ALL_IDS: &[&str] = &["C01", "C03", "C04"];
 
 pub fn build(id: &str) -> Option<Property> {
     match id {
         "C01" => Some(c01::build()),
+        "C03" => Some(c03::build()),
         "C04" => Some(c04::build()),
         _ => None,
     }
